@@ -360,6 +360,7 @@ func init() {
 			c.min("R-FINALGATE/voter", 2)
 			c.min("R-FINALGATE/once", 2)
 			c.ruleStageMaps()
+			c.ruleEquivocatorRemoved()
 			c.min("R-STAGEMAPS", 6)
 			c.ruleThreshA()
 			c.min("R-THRESHCONV", 7)
